@@ -112,7 +112,7 @@ def correspondence(v, st, prop, cmd, model_kind, tier, seed, replay=None, profil
                 open(keep, "w").write(case + "\n")
                 rc2, out2 = vlib.run_harness(cmd, outdir + "-inflight", seed, tier, tag, ["--replay", keep] + list(extra), timeout=600)
                 if rc2 != 0:
-                    res.setdefault("died", []).append((tag, case, "harness process died (exit %d, again %d when replayed alone) while the implementation processed this input: %s" % (rc, rc2, out2[-200:].replace("\n", " "))))
+                    res.setdefault("died", []).append((tag, case, ("the implementation did not return within the watchdog limit (hang; harness exit 97, again %d when replayed alone) on this input" % rc2) if rc == 97 else "harness process died (exit %d, again %d when replayed alone) while the implementation processed this input: %s" % (rc, rc2, out2[-200:].replace("\n", " "))))
             continue
         s = json.load(open(os.path.join(outdir, "stats.json")))
         if name == "gen" or replay:
@@ -178,10 +178,21 @@ def verdict(v, st, prop, res, known_match=None, max_report=3, replay_file="cases
             except TypeError:
                 k = known_match(line, case)
         if k:
-            v.known(k)
-            continue
+            # a class predicate only suppresses what KNOWN_FINDINGS.txt lists for this property
+            import re as _re
+            mcls = _re.search(r"class=(\w+)", k)
+            listed, _fixed = vlib.load_known(prop)
+            if mcls and any(("class=%s " % mcls.group(1)) in kl for kl in listed):
+                v.known(k)
+                continue
         if reported < max_report:
-            v.violation("specfail-%s-%s.txt" % (tag, cid), "# %s: property oracle failed on the implementation (profile %s): %s\n%s" % (prop, tag, line, case),
+            # corpus runs number their cases from 0 again: keep their replay files apart
+            base = os.path.basename(outdir)
+            sfx = ""
+            if "-corpus-" in base:
+                import hashlib as _h
+                sfx = "-corpus" + _h.sha1(base.encode()).hexdigest()[:6]
+            v.violation("specfail-%s-%s%s.txt" % (tag, cid, sfx), "# %s: property oracle failed on the implementation (profile %s): %s\n%s" % (prop, tag, line, case),
                         "property fails on the implementation: " + line[:240])
             reported += 1
     if reported == 0 and st["broken"]:
